@@ -44,7 +44,7 @@ OUTCOMES = {
 def world_for(outcome):
     rx = [('^dtn://node/.*', 'deliver'), ('^dtn://drop/.*', 'delete'), ('^dtn://.*', 'forward')]
     tx = [('^dtn://far/.*', 'dtn://next/', None), ('^dtn://farfrag/.*', 'dtn://next/', 120), ('^dtn://fartiny/.*', 'dtn://next/', 60),
-          ('^dtn://rpt/.*', 'dtn://next/', None)]
+          ('^dtn://rpt/.*', 'dtn://next/', None), ('^ipn:9\\..*', 'dtn://next/', None)]
     return BpWorld(dict(node_id=NODE, rx_routes=rx, tx_routes=tx))
 
 
@@ -55,6 +55,14 @@ def bundle_for(outcome, flags, report_to, seq=1, subject='clock'):
     pri = dict(flags=flags, crc_type=1, dest=dest, src='dtn://src/app', report_to=report_to,
                ts=(700000000000, seq), lifetime=3600000)
     blocks = [dict(type=1, num=1, flags=0, crc_type=1, data=bytes(range(200)) if outcome == 'forward-fragmented' else b'report-me')]
+    if subject.startswith('crc'):
+        # other CRC types on the subject (none / CRC-32)
+        crc = int(subject[3:])
+        pri['crc_type'] = crc
+        blocks[-1]['crc_type'] = crc
+    if subject == 'fragment' and not pri['flags'] & B.FLAG_IS_FRAGMENT:
+        # the subject is itself a fragment of a larger bundle (forwarded or deleted as such)
+        pri.update(flags=pri['flags'] | B.FLAG_IS_FRAGMENT, frag_offset=100, total_adu=1000)
     if subject == 'clockless':
         # a source without a clock: creation time zero, told apart by the sequence number, with an age block
         pri.update(ts=(0, 7 + seq))
@@ -189,7 +197,12 @@ def run_outcome(params, known):
     keys = set()
     count = 0
     samples = []
-    for (report_to, subject) in (('dtn:none', 'clock'), ('dtn://rpt/x', 'clock'), ('dtn://rpt/x', 'clockless')):
+    combos = [('dtn:none', 'clock'), ('dtn://rpt/x', 'clock'), ('dtn://rpt/x', 'clockless')]
+    if params.get('tier') == 'thorough':
+        combos += [('dtn://rpt/x', 'crc0'), ('dtn://rpt/x', 'crc2'), ('ipn:9.9', 'clock'), ('dtn:none', 'clockless')]
+        if outcome in ('forward', 'delete-by-route', 'forward-without-tx-route', 'no-matching-route'):
+            combos.append(('dtn://rpt/x', 'fragment'))
+    for (report_to, subject) in combos:
         for flagbits in range(32):
             count += 1
             (found, emitted) = check_case(outcome, flagbits, report_to, subject)
@@ -210,13 +223,14 @@ def run_outcome(params, known):
 
 
 def scenarios(tier):
-    return [dict(name='outcome-%s' % o, kind='enum', runner='run_outcome', params=dict(name='outcome-%s' % o, outcome=o), weight=1)
+    return [dict(name='outcome-%s' % o, kind='enum', runner='run_outcome', params=dict(name='outcome-%s' % o, outcome=o, tier=tier), weight=1)
             for o in OUTCOMES]
 
 
 ASSUMPTIONS = [
     'an absent report-to endpoint is encoded as dtn:none (RFC 9171 has no other way to omit it)',
     'the twelve outcomes are produced by routing tables / a BIB or BCB with an unknown security context / an undecodable BCB / a route MTU of 120 octets',
+    'thorough tier: also subjects without CRC / with CRC-32, an ipn report-to endpoint, and subjects that are themselves fragments (fragment fields of the report are not judged)',
     'subjects: a bundle with a creation time, and one from a clockless source (creation time 0, sequence number, age block)',
     'a report is required for deliver / forward / delete-by-route when a requested action occurred (the title says "exactly when requested"); for the other outcomes only reports that are emitted are judged',
 ]
